@@ -42,6 +42,12 @@ def spec_oracle(cfg, r, completed):
     ha, hs = r.hist_a, r.hist_s
     if len(ha) != completed or len(hs) != completed:
         out.append(("history-short", f"{completed} proposals completed but histories hold {len(hs)} step sizes / {len(ha)} acceptance rates"))
+    # the statement: the step size stays finite and (strictly) positive -- checked on what was recorded, without tolerance
+    steps_seen = [float(v) for v in hs] + ([float(numpy.asarray(r.final_step).flatten()[0])] if r.final_step is not None else [])
+    for i, v in enumerate(steps_seen):
+        if not (v > 0 and math.isfinite(v)):
+            out.append(("step-not-positive", f"step size {'recorded for proposal ' + str(i) if i < len(hs) else 'left on the sampler after the run'} is {v}"))
+            break
     exps = [v for _, v in r.proxy.exp_log]
     s0 = 1.0 if (cfg["kind"] == "rwmh" and cfg["stepmode"] == "vector") else cfg["stepsize"]
     s = s0
